@@ -452,8 +452,12 @@ func init() {
 			if tier == "thorough" {
 				xd = 3
 			}
-			return []Job{c14Job("empty", base, depth), c14Job("foreign", base, depth), c14Job("stale", base, depth), c14PortsJob(base), c14ConcurrentPortsJob(base, tier),
-				c14XCheckJob("empty", base, xd), c14XCheckJob("foreign", base, xd), c14XCheckJob("stale", base, xd)}
+			var dj []Job
+			for s := 0; s < 8; s++ {
+				dj = append(dj, c14DaemonJob(s, 8, base, tier))
+			}
+			return append(dj, c14Job("empty", base, depth), c14Job("foreign", base, depth), c14Job("stale", base, depth), c14PortsJob(base), c14ConcurrentPortsJob(base, tier),
+				c14XCheckJob("empty", base, xd), c14XCheckJob("foreign", base, xd), c14XCheckJob("stale", base, xd))
 		}})
 	replayers["C14"] = replayDescOnly
 	_ = json.Marshal
